@@ -246,6 +246,74 @@ def system_multi(R, rng, tier):
     shutil.rmtree(d, ignore_errors=True)
 
 
+def chained(R, rng, tier):
+    """Histories longer than one step: the report of a scan made against a baseline (it carries candidate lists) is itself used
+    as the next baseline; and one manager asked for its issue list before and after baselines are loaded.  At every step: an
+    identity is listed exactly when it occurs more often now than in the baseline's results, and the exit status follows."""
+    d = os.path.join(impl.scratch(), "c07ch")
+    os.makedirs(d, exist_ok=True)
+    f = os.path.join(d, "prog.py")
+    lines = ["zz_a = eval(zz_x)", "assert zz_b", "exec(zz_c)"]
+    for plan in ([[0], [0, 0], [0, 0, 0]], [[0, 1], [0, 1, 1], [0, 1, 1, 2], [0, 1, 1, 2]], [[1, 1], [1, 1, 1], [1]]):
+        prev_report, prev_counts = None, None
+        for step, idx in enumerate(plan):
+            open(f, "w").write("".join(lines[i] + "\n" for i in idx))
+            out = os.path.join(d, "r%d.json" % step)
+            if os.path.exists(out):
+                os.remove(out)
+            argv = ["-q", "-f", "json", "-o", out] + (["-b", prev_report] if prev_report else []) + [f]
+            r = climain.run_main(argv)
+            counts = {i: idx.count(i) for i in set(idx)}
+            R.case(("chained", tuple(map(tuple, plan)), step), nontrivial=True, sample={"plan": plan, "step": step, "exit": r["exit"]})
+            R.count("chained")
+            inp = {"history": [[lines[i] for i in p_] for p_ in plan[:step + 1]], "step": step, "argv": argv[:4] + ["..."]}
+            if r["exception"] or not os.path.exists(out):
+                R.violations.append({"what": "step %d of a chained baseline history: no report (%s)" % (step, r["exception"] or r["exit"]), "input": inp,
+                                     "observed": (r["traceback"] or "")[-300:], "signature": None})
+                break
+            rep = json.load(open(out))["results"]
+            listed = sorted({x["test_id"] for x in rep})
+            tid = {0: "B307", 1: "B101", 2: "B102"}
+            # the baseline is what the previous *report* lists (under a baseline that is the unmatched findings only,
+            # each once; its candidate lists are not findings of the report)
+            want = sorted(tid[i] for i in counts if counts[i] > (prev_counts or {}).get(tid[i], 0))
+            if listed != want or (r["exit"] == 1) != bool(want):
+                R.violations.append({"what": "step %d of a chained baseline history lists %s with exit %s; the identities occurring more often than in the previous "
+                                             "report's results are %s" % (step, listed, r["exit"], want), "input": inp, "observed": [(x["test_id"], x["line_number"]) for x in rep],
+                                     "signature": None})
+            prev_report, prev_counts = out, {t: sum(1 for x in rep if x["test_id"] == t) for t in {x["test_id"] for x in rep}}
+    # one manager, queried before and after baselines are loaded
+    base = [mk_issue(IDENTS[k], 100 + j) for j, k in enumerate((0, 1))]
+    cur = [mk_issue(IDENTS[k], 1 + j) for j, k in enumerate((0, 1, 2, 3))]
+    blob = json.dumps({"results": [i.as_dict() for i in base]})
+    blob2 = json.dumps({"results": [i.as_dict() for i in cur[:3]]})
+    for thr in (("LOW", "LOW"), ("UNDEFINED", "UNDEFINED")):
+        mgr = impl.make_manager()
+        mgr.results = list(cur)
+        seq = []
+        seq.append(len(mgr.get_issue_list(*thr)))
+        mgr.populate_baseline(blob)
+        seq.append(len(mgr.get_issue_list(*thr)))
+        seq.append(mgr.results_count(*thr))
+        mgr.populate_baseline(blob2)
+        seq.append(len(mgr.get_issue_list(*thr)))
+        fresh = []
+        for b_ in (None, blob, blob, blob2):
+            m2 = impl.make_manager()
+            m2.results = list(cur)
+            if b_:
+                m2.populate_baseline(b_)
+            fresh.append(len(m2.get_issue_list(*thr)))
+        R.case(("reuse", thr), nontrivial=True, sample={"thresholds": thr, "listed": seq})
+        R.count("manager-reuse")
+        if fresh != [4, 2, 2, 1]:
+            R.broken.append({"what": "harness: the synthetic baselines were not loaded (fresh managers list %s)" % fresh})
+        if seq != fresh:
+            R.violations.append({"what": "one manager asked before and after loading baselines lists %s findings, fresh managers list %s" % (seq, fresh),
+                                 "input": {"results": 4, "baselines": ["none", "2 of them", "2 of them (count)", "3 of them"], "thresholds": thr},
+                                 "observed": seq, "signature": None})
+
+
 def identity_details(R, rng, tier):
     """Identities that differ in one field only inside one file, and file names with unusual characters."""
     import shutil
@@ -316,4 +384,5 @@ def run(R, replay=None):
     system(R, rng, R.tier)
     system_multi(R, rng, R.tier)
     identity_details(R, rng, R.tier)
+    chained(R, rng, R.tier)
     R.disagreements_checked = R.evaluations
